@@ -315,17 +315,20 @@ def r2_relations(ctx):
               "the corrected copy is not assigned to the force column")
     # baseline fit: linear model on [:idp] of the chosen abscissa
     fits = [c for c in calls_in(f) if call_name(c) == "mod.fit"]
-    ok = bool(fits) and norm(fits[0].args[0]) == "force[:idp]" and \
+    Rs_ = Resolver(f, keep={"abscissa", "idp"})
+    ok = bool(fits) and Rs_.text(fits[0].args[0]) in (
+        "force[:idp]", "apret['force'][:idp]") and \
         norm(kwarg(fits[0], "x")) == "abscissa[:idp]"
     ctx.check(ok, f, "linear model fitted to the baseline part",
               "the slope is not fitted to the data before the contact "
               "point")
-    for strat, col in (("shift", "tip_position"), ("drift",
-                                                   "time_position")):
+    for strat, col, column in (("shift", "tip_position", "tip position"),
+                               ("drift", "time_position", "time")):
         ok = False
         for st in walk_no_nested(f, False):
             if isinstance(st, ast.Assign) and norm(st.targets[0]) == \
-                    "abscissa" and norm(st.value) == col:
+                    "abscissa" and Rs_.text(st.value) in (
+                        col, f"apret['{column}']"):
                 conds = conditions_at(st)
                 if any(a.pol and a.text == f"strategy == '{strat}'"
                        for a in conds):
@@ -448,8 +451,12 @@ def r3_monotone_test(ctx):
     lp2 = loops[1]
     brk2 = [n for n in lp2.body if isinstance(n, ast.If) and any(
         isinstance(s, ast.Break) for s in n.body)]
-    ok = bool(brk2) and norm(brk2[0].test) == \
-        "np.unique(smooth).size == smooth.size"
+    Rsm = Resolver(f)
+    ok = bool(brk2) and Rsm.text(brk2[0].test).replace(
+        "len(smooth)", "smooth.size") in (
+        "np.unique(smooth).size == smooth.size",
+        "smooth.size == np.unique(smooth).size",
+        "len(np.unique(smooth)) == smooth.size")
     ctx.check(ok, lp2, "strictness loop ends only when all values differ",
               "ties are no longer removed before returning (monotone but "
               "not strictly)")
